@@ -57,15 +57,42 @@ pub fn one_run(
     replay: Option<Vec<u32>>,
 ) -> Result<RunReport, String> {
     let run = spec.run;
-    rt::on_fresh_thread(mix(rs, 0x6e7_0001), move || {
-        let ch = match replay {
-            Some(v) => Chooser::replay(v),
-            None => Chooser::search(rs),
-        };
-        let st: Shared = Rc::new(RefCell::new(RunState::new(ch)));
-        run(&st, tier)
+    let limit = std::env::var("VERIF_WATCHDOG_S")
+        .ok()
+        .and_then(|s| s.parse().ok())
+        .unwrap_or(30u64);
+    let prop = spec.prop;
+    let r = rt::on_fresh_thread_watchdog(
+        mix(rs, 0x6e7_0001),
+        Some(std::time::Duration::from_secs(limit)),
+        move || {
+            let ch = match replay {
+                Some(v) => Chooser::replay(v),
+                None => Chooser::search(rs),
+            };
+            let st: Shared = Rc::new(RefCell::new(RunState::new(ch)));
+            run(&st, tier)
+        },
+    )?;
+    Ok(match r {
+        Some(rep) => rep,
+        None => {
+            // bounded liveness: the call under test never returned
+            let mut rep = RunReport::default();
+            rep.violate(
+                prop,
+                HANG_CLAUSE,
+                format!(
+                    "the run produced no result within the {limit} s watchdog (runs normally take milliseconds): a call into the library did not return"
+                ),
+            );
+            rep.sample = "unknown (the run is stuck; replay by seed)".into();
+            rep
+        }
     })
 }
+
+pub const HANG_CLAUSE: &str = "no_result_within_watchdog";
 
 #[derive(Default)]
 struct Agg {
@@ -394,6 +421,29 @@ fn check_inner(spec: &CheckSpec, tier: Tier) -> i32 {
             v.property, v.clause, v.detail
         );
         let rs = run_seed(spec, seed, i);
+        if v.clause == HANG_CLAUSE {
+            let dir = verif_root().join("replays");
+            let _ = std::fs::create_dir_all(&dir);
+            let path = dir.join(format!("{}-{}-hang-{}.json", spec.prop, seed, i));
+            let j = json!({
+                "property": spec.prop,
+                "clause": HANG_CLAUSE,
+                "detail": v.detail,
+                "engine": spec.engine,
+                "tier": tier.name(),
+                "verif_seed": seed,
+                "run_index": i,
+                "run_seed": rs,
+                "mode": "seed",
+                "replay_cmd": format!("/verif/run.sh replay {}", path.display()),
+            });
+            std::fs::write(&path, serde_json::to_string_pretty(&j).unwrap()).unwrap();
+            println!("VIOLATION property={} replay={}", spec.prop, path.display());
+            println!("  clause={} detail={}", v.clause, v.detail);
+            write_evidence(spec, tier, seed, &agg, wall, 1, total);
+            // stuck threads never finish: leave without joining them
+            std::process::exit(1);
+        }
         let (trace, final_rep, replays) =
             minimise(spec, tier, rs, rep.trace.clone(), &v);
         println!(
